@@ -12,6 +12,14 @@ CHECKS = {
             "Trusted: the Python reference (ref_num.py) and the canonical encoder hook. Operands outside the alphabet are not covered; "
             "inexact n-ary folds, float formatting and (/ x 0) with inexact x are left unspecified.",
             "DESIGN.md §3 C10"),
+    "C12": ("exploration",
+            "small-scope exhaustive enumeration of reader inputs (all strings/token sequences up to a length) and of data/programs for write-read and parse-print-parse round trips, on the real parser and engine; differential read-after-read histories",
+            "Every string up to length 5 (thorough 6) over a 26-character alphabet chosen from the lexer's branches and every token sequence up to length 3 (4) "
+            "is parsed by the real parser inside a forked child: no panic, every span inside the text. Every datum from a leaf alphabet covering each lexer branch "
+            "under 12 compound shapes is written and read back inside the engine; every program of a syntax zoo plus all small core terms is printed and re-parsed. "
+            "Pairs of reads on different ports are compared with the second read alone (non-initial states).",
+            "Trusted: the harness' span scanner over Debug output, equal? for the write/read oracle (itself checked by C11). Longer inputs are outside the bound.",
+            "DESIGN.md §3 C12"),
 }
 
 NOT_YET = {}
